@@ -137,6 +137,7 @@ class Result:
 def explore_parallel(ll_path, entry='sx_main', args=(), opts=None, jobs=None, min_tasks=None, max_split=12,
                      budget_s=None):
     opts = dict(opts or {})
+    opts.setdefault('lib_prefix', os.path.join(REPO, 'src') + '/')
     jobs = jobs or int(os.environ.get('IVSX_JOBS', '16'))
     t0 = time.time()
     mod = IR.parse_file(ll_path)
@@ -220,7 +221,9 @@ def explore_parallel(ll_path, entry='sx_main', args=(), opts=None, jobs=None, mi
 def replay(ll_path, cex, entry='sx_main', args=(), opts=None):
     """concrete re-execution of a recorded counterexample; returns the violations it reproduces"""
     mod = IR.parse_file(ll_path)
-    ex = Executor(mod, dict(opts or {}))
+    opts = dict(opts or {})
+    opts.setdefault('lib_prefix', os.path.join(REPO, 'src') + '/')
+    ex = Executor(mod, opts)
     vals = [(n, v) for n, v in cex['values']]
     try:
         ex.explore(entry, list(args), forced=[tuple(d) for d in cex['decisions']], replay_values=vals)
